@@ -645,7 +645,7 @@ func runReuse() {
 			}
 		}
 	}
-	chk.Range(fmt.Sprintf("reuse: %d sequences (one per symbology), each driven through ONE writer object and ONE reader object per reader kind, forward then backward, every read preceded by a failing decoy read on the same object", len(seqs)), len(seqs),
+	chk.Range(fmt.Sprintf("reuse: %d sequences (one per symbology), each driven through ONE writer object and ONE reader object per reader kind, forward then backward, every read preceded by a failing decoy read on the same object, every second one also by Reset()", len(seqs)), len(seqs),
 		func(i int) string { return "reuse " + seqs[i].sym },
 		func(l *mc.Local, i int) {
 			q := seqs[i]
